@@ -68,25 +68,29 @@ def confirm(patch, demo):
 
 
 def run_checks(patch):
-    rc, out = sh(['git', '-C', REPO, 'status', '--porcelain'])
-    if out.strip():
-        return {'error': '/repo is not clean: ' + out[:200]}
-    rc, out = sh(['git', '-C', REPO, 'apply', os.path.abspath(patch)])
+    """run every check's quick command against a scratch worktree of /repo's HEAD with the patch applied
+    (VERIF_REPO), so that /repo itself is never modified; the worktree is removed afterwards"""
+    wt = tempfile.mkdtemp(prefix='raqote-seedchk-')
+    os.rmdir(wt)
+    rc, out = sh(['git', '-C', REPO, 'worktree', 'add', '-q', '--detach', wt, 'HEAD'])
     if rc != 0:
-        return {'error': 'patch does not apply to /repo: ' + out[-300:]}
+        return {'error': out}
     fired = {}
     try:
+        rc, out = sh(['git', 'apply', os.path.abspath(patch)], cwd=wt)
+        if rc != 0:
+            return {'error': 'patch does not apply to HEAD: ' + out[-300:]}
         evdir = tempfile.mkdtemp(prefix='raqote-seed-ev-')
         for l in open(os.path.join(VERIF, 'properties.jsonl')):
             pid = json.loads(l)['id']
-            rc, out = sh([os.path.join(VERIF, 'check'), pid, '--tier', 'quick'], cwd=VERIF, env={'VERIF_EVIDENCE_DIR': evdir})
+            rc, out = sh([os.path.join(VERIF, 'check'), pid, '--tier', 'quick'], cwd=VERIF, env={'VERIF_EVIDENCE_DIR': evdir, 'VERIF_REPO': wt})
             if rc != 0:
                 rules = sorted(set(re.findall(r'\[(R[0-9]+\.[0-9a-z]+|[a-z_0-9]+)\] ', out)))
                 lines = [x for x in out.splitlines() if re.match(r'^\S+: \[', x)]
                 fired[pid] = {'rules': rules, 'first': lines[0][:400] if lines else out[-300:]}
         shutil.rmtree(evdir, ignore_errors=True)
     finally:
-        sh(['git', '-C', REPO, 'checkout', '--', '.'])
+        sh(['git', '-C', REPO, 'worktree', 'remove', '--force', wt])
     return {'fired': fired}
 
 
